@@ -53,6 +53,7 @@ type Scenario struct {
 	EmptyKeys  bool             `json:"empty_keys,omitempty"`  // the receiver has TSIG switched on (a non-nil secret map) but holds no key: no envelope can verify
 	Dial       string           `json:"dial,omitempty"`        // "" a preset connection | ok | refused : Transfer.In makes the connection itself (socket seam of the instrumented build; a preset connection elsewhere)
 	Hijack     bool             `json:"hijack,omitempty"`      // sender "out": the handler takes the connection over (Hijack), returns, and Transfer.Out carries on from another task - while a bystander asks the same server ordinary questions over connections of its own
+	HijackLate bool             `json:"hijack_late,omitempty"` // sender "out", paced: the handler starts Transfer.Out in a task of its own, waits until the first envelope is on its way, then takes the connection over (Hijack) and returns - the order the library's own transfer tests use
 	OutPaceMs  int              `json:"out_pace_ms,omitempty"` // sender "out": the application hands Transfer.Out one envelope every so often; with a fudge of 5 s the whole transfer takes longer than the fudge
 	PaceMs     int              `json:"pace_ms,omitempty"`     // scripted sender: pause between envelopes (shorter than the read timeout; the whole transfer may take much longer than it)
 	BadFirst   bool             `json:"bad_first,omitempty"`   // scripted: the sequence does not start with an SOA
@@ -149,6 +150,15 @@ func Gen(seed uint64, tier string) any {
 	if sc.Sender == "out" && sc.Alg != "" && sc.ConsumerMs == 0 && sc.PaceMs == 0 && core.Chance(r, 25) {
 		sc.OutPaceMs = core.Pick(r, 1500, 2500, 4000)
 		sc.Fudge, sc.TimeoutMs, sc.DefTimeout = 5, 8000, false
+	}
+	if sc.Sender == "out" && sc.OutPaceMs == 0 && sc.ConsumerMs == 0 && sc.PaceMs == 0 && core.Chance(r, 8) {
+		sc.OutPaceMs, sc.TimeoutMs, sc.DefTimeout = core.Pick(r, 2500, 4000), 8000, false // (the same without TSIG)
+		if sc.Alg != "" {
+			sc.Fudge = 300
+		}
+	}
+	if sc.OutPaceMs > 0 && core.Chance(r, 50) {
+		sc.HijackLate, sc.Hijack = true, false
 	}
 	defer func() {
 		if sc.OutPaceMs > 0 {
@@ -470,6 +480,7 @@ type run struct {
 	l                   *simnet.Listener
 	serveRet            bool
 	outErr              string
+	firstFed            bool // the feeder has handed its first envelope to Transfer.Out
 	lastFaultT          time.Time
 	localClosed         bool // the application closed the connection itself while the transfer was running
 }
@@ -749,6 +760,18 @@ func (x *run) ServeDNS(w dns.ResponseWriter, r *dns.Msg) {
 		w.WriteMsg(m)
 		return
 	}
+	if x.sc.HijackLate && x.sc.Sender == "out" && x.sc.OutPaceMs > 0 {
+		// Transfer.Out runs in a task of its own; the handler takes the connection over once the first
+		// envelope has been handed to it and written, and returns. The rest of the zone follows at the
+		// application's pace.
+		x.k.Go("out", &outTask{x, w, r})
+		if x.k.Wait("h.firstenv", 0, common.Flag{V: &x.firstFed}, 0) {
+			x.k.WaitSteps("h.firstenv.written", 6, 50*time.Millisecond)
+		}
+		w.Hijack()
+		x.k.Bump("fault.hijack_after_first_envelope")
+		return
+	}
 	if x.sc.Hijack && x.sc.Sender == "out" {
 		// the connection is the application's from here on: the zone is sent from a task of its own
 		w.Hijack()
@@ -857,7 +880,15 @@ func (f *feeder) RunEvent(time.Time) {
 			break
 		}
 		f.ch <- &dns.Envelope{RR: rrs}
+		if i == 0 {
+			f.x.k.Lock()
+			f.x.firstFed = true
+			f.x.k.Unlock()
+		}
 	}
+	f.x.k.Lock()
+	f.x.firstFed = true
+	f.x.k.Unlock()
 	close(f.ch)
 }
 
@@ -1103,6 +1134,15 @@ func (x *run) judge(start0 time.Time) {
 				}
 				prior = v.MAC
 			}
+		}
+	}
+	// sender side: on a healthy link, with a receiver that reads at once, the application's own pace is the
+	// only thing that takes time - Transfer.Out has no reason to run into a timeout of any kind
+	if sc.Sender == "out" && sc.OutPaceMs > 0 && len(sc.Ops) == 0 && sc.CutAt == 0 {
+		res.Bump("oracle.T4_out_not_timed_out")
+		if strings.Contains(x.outErr, "timeout") {
+			res.Fail("T4", "out-timeout-on-healthy-link", "Transfer.Out, fed one envelope every %d ms over a link without faults to a receiver that reads at once, returned %q after %d of %d envelopes had been written", sc.OutPaceMs, x.outErr, len(original), len(envelopes(sc)))
+			return
 		}
 	}
 	// reference verdict over the delivered envelopes
